@@ -2244,7 +2244,13 @@ void SPxSolverBase<R>::setSlacks(VectorBase<R>& p_vector)
 template <class R>
 typename SPxSolverBase<R>::Status SPxSolverBase<R>::status() const
 {
-   switch(m_status)
+   Status stat = m_status;
+
+   // the LP was changed after an optimal solve: the basis has been downgraded and says what is known now
+   if(stat == OPTIMAL && SPxBasisBase<R>::status() != SPxBasisBase<R>::OPTIMAL)
+      stat = UNKNOWN;
+
+   switch(stat)
    {
    case UNKNOWN :
       switch(SPxBasisBase<R>::status())
@@ -2277,9 +2283,6 @@ typename SPxSolverBase<R>::Status SPxSolverBase<R>::status() const
       return m_status;
 
    case OPTIMAL :
-      assert(SPxBasisBase<R>::status() == SPxBasisBase<R>::OPTIMAL);
-
-   /*lint -fallthrough*/
    case ABORT_CYCLING :
    case ABORT_TIME :
    case ABORT_ITER :
